@@ -399,6 +399,17 @@ func exec(r *harness.Run) *harness.Violation {
 			}
 		}
 		if strings.Join(gs, " | ") != strings.Join(ws, " | ") {
+			// Sub-class: gc's chain is a subsequence of Scriggo's (stale or
+			// duplicated entries that gc has already dropped).
+			k := 0
+			for _, g := range gs {
+				if k < len(ws) && g == ws[k] {
+					k++
+				}
+			}
+			if k == len(ws) && len(gs) > len(ws) {
+				return harness.Violf(cls("wrong-chain-extra-elements"), "%s: panic chain (earliest first) is [%s], gc has [%s]", ctx, strings.Join(gs, " | "), strings.Join(ws, " | "))
+			}
 			return harness.Violf(cls("wrong-chain"), "%s: panic chain (earliest first) is [%s], gc has [%s]", ctx, strings.Join(gs, " | "), strings.Join(ws, " | "))
 		}
 		for _, e := range got {
